@@ -602,13 +602,29 @@ func dispatch(op string, a []string) string {
 			s, _ = q.Frame(p)
 			fst = append(fst, hexs(s))
 		}
-		return "OK" + showSeq(q) + " fmt=" + hexs(f) + " frame=" + strings.Join(fi, ",") + " frames=" + strings.Join(fst, ",") + " M_far=" + far
+		res := "OK" + showSeq(q) + " fmt=" + hexs(f) + " frame=" + strings.Join(fi, ",") + " frames=" + strings.Join(fst, ",") + " M_far=" + far
+		// last, the pad width is changed on the object that has answered all of the above: the paths
+		// must follow the new width
+		q.SetPadding("%09d")
+		rp, _ := q.Frame(-5)
+		q.SetPadding("@@")
+		rp2 := q.Index(0)
+		return res + " M_repad=" + hexs(rp) + "," + hexs(rp2)
 	case "seqops":
 		q, err := fileseq.NewFileSequencePad(a[0], fileseq.PadStyle(argz(a[1])))
 		if err != nil {
 			return "ERR"
 		}
 		for _, op := range a[2:] {
+			// read the paths and strings between the setters (results dropped): a value remembered
+			// from an earlier state must not survive the next setter
+			q.Index(0)
+			q.Frame(3)
+			q.Frame("3")
+			_ = q.String()
+			q.FrameRangePadded()
+			q.ZFill()
+			q.Len()
 			applyOp(q, op)
 		}
 		var b strings.Builder
